@@ -1,4 +1,4 @@
-#!/usr/bin/env python3
+#!/verif/.venv/bin/python
 """Regenerate MANIFEST.json from props/*.py (MANIFEST dicts) - run after adding or changing a check."""
 import importlib
 import json
